@@ -289,10 +289,23 @@ def gen_table(rng, with_cons=True):
                                             match=rng.choice([None, None, "FULL"]), initially=rng.choice([None, None, "DEFERRED"])))
         sa.Table("other", md, sa.Column("id", sa.Integer, primary_key=True), schema=fsch)
     kw = gen_table_kw(rng)
-    if kw.get("sqlite_with_rowid") is False and not any(c.primary_key for c in cols):
+    if len(names) >= 2 and rng.random() < 0.3:
+        # composite primary key whose written order differs from the declaration order: PRIMARY KEY (b, a) over a, b[, c]
+        k = rng.choice([2, 2, 3]) if len(names) >= 3 else 2
+        pk = list(reversed(names[:k])) if rng.random() < 0.6 else rng.sample(names, k)
+        for i, c in enumerate(cols):
+            if c.primary_key or c.name in pk:
+                args[i] = cols[i] = sa.Column(c.name, sa.Integer if c.name == pk[0] else c.type, nullable=False)
+        args.append(sa.PrimaryKeyConstraint(*pk, name=rng.choice([None, None, "pk_1"])))
+    if kw.get("sqlite_with_rowid") is False and not any(c.primary_key for c in cols) \
+            and not any(isinstance(a, sa.PrimaryKeyConstraint) for a in args):
         args[0] = cols[0] = sa.Column(names[0], sa.Integer, primary_key=True)   # WITHOUT ROWID needs a primary key
     t = sa.Table(n, md, *args, schema=rng.choice(SCHEMAS), **kw)
     return t
+
+
+def ro_name(n):
+    return None if n is None or type(n).__name__ == "_NoneName" else str(n)
 
 
 def gen_table_kw(rng):
@@ -358,6 +371,8 @@ def gen_leaf(rng, lossy_p=0.12):
             # unique=True / index=True flags (also both), next to explicit UniqueConstraints
             kw = gen_table_kw(rng)
             flagged = rng.random() < 0.6
+            pkc = [c for c in t.constraints if isinstance(c, sa.PrimaryKeyConstraint) and len(c.columns) > 1]
+            pk_flags = rng.random() < 0.5
             cols = []
             for i, c in enumerate(t.c):
                 ckw = {}
@@ -369,9 +384,15 @@ def gen_leaf(rng, lossy_p=0.12):
                         ckw["index"] = True
                     else:
                         ckw["unique"] = ckw["index"] = True
+                # with a composite key: half of the time the member columns carry primary_key=True as well, next to the
+                # explicit PrimaryKeyConstraint that fixes the order (op.create_table(Column(.., primary_key=True), ..,
+                # PrimaryKeyConstraint('b', 'a')))
+                in_pk = bool(pkc) and c.name in [x.name for x in pkc[0].columns] and pk_flags
                 cols.append(sa.Column(c.name, c.type, nullable=c.nullable,
-                                      primary_key=(i == 0 and kw.get("sqlite_with_rowid") is False), **ckw))
+                                      primary_key=in_pk or (i == 0 and kw.get("sqlite_with_rowid") is False and not pkc), **ckw))
             extra = []
+            if pkc:
+                extra.append(sa.PrimaryKeyConstraint(*[c.name for c in pkc[0].columns], name=ro_name(pkc[0].name)))
             if rng.random() < 0.3:
                 names_ = [c.name for c in cols]
                 extra.append(sa.UniqueConstraint(*rng.sample(names_, min(len(names_), rng.choice([1, 2]))),
